@@ -162,7 +162,10 @@ func (a *FuncAction) Exec(ctx context.Context, bs Bindings, props StepProps) (*E
 
 	exe, err := a.F(ctx, bs, props)
 
-	if Exp_PermanentBindings {
+	if Exp_PermanentBindings && exe != nil && exe.Bs != nil {
+		// An execution that failed (nil execution) or that returned
+		// no bindings (say a guard that rejects) has nothing to
+		// restore into.
 		for p, v := range permanent {
 			exe.Bs[p] = v
 		}
